@@ -16,6 +16,7 @@ const (
 	FDef              // stands for the multi-term polynomial Q (appears only with a large exponent: inverse, power)
 	FEmb              // integer term T embedded in the field (T mod m)
 	FPV               // predicate atom as a 0/1 field value (idempotent)
+	FExp              // Q raised to the integer term T (a power with a symbolic exponent, see fexp.go)
 )
 
 type FVar struct {
@@ -39,6 +40,8 @@ func (v *FVar) String() string {
 		return "FE(" + v.T.String() + ")"
 	case FPV:
 		return "[" + v.P.String() + "]"
+	case FExp:
+		return "(" + v.Q.String() + ")^[" + v.T.String() + "]"
 	}
 	return "?"
 }
